@@ -23,6 +23,7 @@ FILES = [
     "qucumber/utils/unitaries.py",   # the sign anchor: rotated-basis Born distributions (property C04's functions)
 ]
 REQUIRED_THEOREMS = [
+    "C08_gen_to_pm1_eq_model", "C08_gen_spin_convention",  # translator tie (notes/translator.md)
     "C08_represents_pure", "C08_represents_mixed", "C08_sigmaX", "C08_sigmaY", "C08_sigmaZ",
     "C08_neighbour_open", "C08_neighbour_periodic", "C08_pure_states", "C08_mixed_states",
     "C08_pure_trace_eq_expectation", "C08_trace_real", "C08_real", "C08_no_mutation", "C08_importance_weight",
@@ -748,8 +749,16 @@ def history_case(ctx, case):
         A.count_into(ctx)
 
 
+def gen_tie(ctx):
+    """translator tie (notes/translator.md): `to_pm1` / `to_01` are re-translated from the source of the checked tree into Lean and compared
+    with the committed lean/QV/Gen/SpinConv.lean, which `C08_gen_to_pm1_eq_model` proves equal to the model's `toPm1`"""
+    from . import gentie
+    return gentie.tie(ctx, "SpinConv", "C08_gen_to_pm1_eq_model")
+
+
 def run(ctx):
     ctx.rule = RULE
+    gen_tie(ctx)
     for args in gen_cases(ctx, ctx.tier == "thorough"):
         one_case(ctx, *args)
     for _ in range(24 if ctx.tier == "thorough" else 4):
